@@ -203,8 +203,20 @@ def gen_case(rng: random.Random, i: int) -> dict:
         strategy = rng.choice(["pause", "log", "warn"])
         if strategy == "pause":
             cmds = cmds + [["start"], ["start"]]
+    # ---- one-shot listeners of the model on the simulator's WARMUP / END_REPLICATION events (and on the channels),
+    #      subscribed before / between / after the statistics, unsubscribing themselves or one another inside notify:
+    #      every statistic must be notified all the same
+    hooks = []
+    if rng.random() < 0.6:
+        for _ in range(rng.randint(1, 3)):
+            r = rng.random()
+            ev = "warmup" if r < 0.45 else ("endrepl" if r < 0.8 else ["chan", rng.randrange(nchan)])
+            hooks.append({"ev": ev, "pos": rng.randint(0, nst) if rng.random() < 0.7 else 0, "removes": len(hooks)})
+        for hi, h in enumerate(hooks):
+            if rng.random() < 0.3:
+                h["removes"] = rng.randrange(len(hooks))
     return {"clock": clock, "strategy": strategy, "prog": prog, "cmds": cmds, "chans": chans,
-            "payloads": payloads, "stats": stats}
+            "payloads": payloads, "stats": stats, "hooks": hooks}
 
 
 # ----------------------------------------------------------------------------- running the implementation
@@ -311,7 +323,9 @@ def oracle(case: dict, obs: dict):
     facts = {"warm_tie": False, "warm_tie_hi": False, "warm_fired": False, "pre_warm_obs": False,
              "post_warm_obs": False, "paused": False, "second_repl": False, "ended": False, "reentrant": False,
              "end_tie": False, "rejected": False, "kinds": [], "deliveries": 0, "executed": 0,
-             "persistent_closed": False, "warm_not_reached": False}
+             "persistent_closed": False, "warm_not_reached": False,
+             "hook_on_simulator_event": any(h["ev"] in ("warmup", "endrepl") for h in case.get("hooks") or []),
+             "hook_on_channel": any(isinstance(h["ev"], list) for h in case.get("hooks") or [])}
     if "error" in obs:
         return ("driver-error", obs["error"] + " " + obs.get("tb", "")[-300:]), facts
     log = obs["log"]
@@ -673,8 +687,16 @@ def shrink(case, pred, budget=150):
                 cur = cand; changed = True; break
         if changed:
             continue
+        # hooks (from the back: the indices the others refer to stay)
+        if cur.get("hooks"):
+            cand = json.loads(json.dumps(cur)); cand["hooks"].pop()
+            for h in cand["hooks"]:
+                if h["removes"] >= len(cand["hooks"]):
+                    h["removes"] = -1
+            if attempt(cand):
+                cur = cand; changed = True; continue
         # statistics (from the back: ids of the others stay)
-        if len(cur["stats"]) > 1:
+        if len(cur["stats"]) > 1 and not any(h["pos"] >= len(cur["stats"]) for h in cur.get("hooks") or []):
             cand = json.loads(json.dumps(cur)); cand["stats"].pop()
             if attempt(cand):
                 cur = cand; changed = True; continue
@@ -743,7 +765,9 @@ def main(tier: str) -> int:
     run.cov["distinct_nontrivial"] = len(nontriv)
     run.cov["rule"] = ("generated model programs + statistics configurations (1-5 Sim statistics of the four types on 1-4 shared / private "
                        "channels incl. the standard DATA / WEIGHT_DATA / TIMESTAMP_DATA event types, subscriber on the statistics' own events "
-                       "with re-entrant registrations) x 4 clock kinds x command scenarios (start; run_up_to(+incl) + start; step sequences; "
+                       "with re-entrant registrations; in 60% of the cases 1-3 one-shot listeners of the model on the simulator's WARMUP / "
+                       "END_REPLICATION events or a channel, subscribed before / between / after the statistics and unsubscribing themselves "
+                       "or one another inside notify) x 4 clock kinds x command scenarios (start; run_up_to(+incl) + start; step sequences; "
                        "second replication without cleanup; abandon mid-run and re-initialise; cleanup + re-initialise; end_replication; "
                        "paused and never ended; malformed stream every 5th case: refused payloads, failing handlers, three error strategies); "
                        "non-trivial = distinct case executing >= 3 events in which the warm-up reset fired with observations both before and "
